@@ -14,7 +14,9 @@ PRED_PROP = {"C04": ("C04.",), "C05": ("C05.",), "C06": ("C06.",),
              # C17, cache level: concurrent consumers of the read buffer (recorded reads stuck or delivered twice)
              "C17": ("C17.", "C05.abnormal_end"),
              # C07, concurrent form: no Overflow removal in a cache that never exceeds its maximum
-             "C07": ("C07.", "C05.abnormal_end")}
+             "C07": ("C07.", "C05.abnormal_end"),
+             # C14, overflow fallback: the bound is restored without any further call once the cache reports no outstanding maintenance
+             "C14": ("C14.bound_restored",)}
 
 
 def wr_cfg(writers, keys, nops, weights, maxw, nodes, transplant=False):
@@ -39,6 +41,8 @@ def scenarios(prop, quick, seed):
         n = 96 if quick else 960
     if prop in ("C17", "C07"):
         n = 48 if quick else 480
+    if prop == "C14":
+        n = 64 if quick else 800
     out = []
     for j in range(n):
         pol = ["random", "pct", "free", "pct"][j % 4]
@@ -56,6 +60,11 @@ def scenarios(prop, quick, seed):
             if j % 2 == 0:
                 # one producer on one key with a same-goroutine executor: the order of its events is observable (C16.producer_order)
                 sc.update(writers=1, keys=1, syncexec=1, ops=14 + j % 5, policy="free", size="count", max=3, reads=0, oneprod=1)
+        elif prop == "C14":
+            # overflow fallback: a write buffer of 8 events, a foreign holder of the eviction mutex while the writers fill it, more distinct
+            # keys than the maximum (the writer that runs the maintenance itself hands it its own event)
+            sc = dict(base, size=["count", "weight"][j % 2], max=2 + j % 3, wt=[1, 1, 2, 1, 1], smallbuf=3, stale=0, invall=0, reads=0, expiry=0,
+                      policy=["free", "random", "free", "pct"][j % 4])
         elif prop == "C17":
             sc = dict(base, size=["count", "none", "weight"][j % 3], max=3 + j % 4, wt=[1, 0, 2, 1, 3], smallbuf=0, stale=0, reads=1, expiry=1,
                       invall=2 + j % 3, policy="free", writers=3 + j % 2, ops=12 + j % 6, keys=2 + j % 3)
@@ -77,6 +86,12 @@ def scenarios(prop, quick, seed):
                 sc["expiry"] = 0       # no maintenance at all: the fast notification path
         if sc["smallbuf"] and not sc.get("oneprod"):
             sc["writers"], sc["ops"], sc["keys"] = 3 + j % 2, 8 + j % 4, 3 + j % 3
+            if prop == "C14":
+                sc["keys"] = 6 + j % 4
+                if j % 2 == 0:
+                    # one write per writer, more writers than the buffer holds: the last writes of the run are the ones that overflow -
+                    # nothing comes after them that could repair what their maintenance pass left behind
+                    sc["writers"], sc["ops"], sc["keys"], sc["policy"] = 14 + (j // 2) % 4, 1, 16, "free"
             if sc["smallbuf"] == 2:
                 sc["writers"], sc["ops"] = 4, 14 + j % 5
         if sc["stale"]:
@@ -107,7 +122,7 @@ def run(prop, tier, replay=None, collect_only=False):
             inst = [("k1w2", wr_cfg(2, 1, 2, [1], 1, 4)), ("k2w2wt", wr_cfg(2, 2, 2, [0, 1, 3], 2, 4))]
             if not quick:
                 inst += [("k1w3", wr_cfg(3, 1, 2, [0, 1], 1, 6)), ("k2w2n3", wr_cfg(2, 2, 3, [1, 2], 2, 6))]
-            if prop in ("C16", "C17", "C07"):
+            if prop in ("C16", "C17", "C07", "C14"):
                 inst = []
             mc_futs = [ex.submit(run_mc, work, tag, txt, 4 if quick else 8) for tag, txt in inst]
             scen = scenarios(prop, quick, seed)
